@@ -9,7 +9,7 @@ git -C /repo worktree add --detach $wt HEAD -q || exit 2
 trap 'git -C /repo worktree remove --force '$wt' 2>/dev/null' EXIT
 cd $wt
 cp "$demo" "$dest/" || exit 2
-pkg="./${dest#$mod/}/"
+if [ "$dest" = "$mod" ]; then pkg="./"; else pkg="./${dest#$mod/}/"; fi
 ( cd $mod && go test -vet=off -count=1 -run "$re" $pkg > /tmp/confirm.base.log 2>&1 ); base=$?
 git apply "$patch" || { echo "PATCH DOES NOT APPLY"; exit 2; }
 ( cd $mod && go test -vet=off -count=1 -run "$re" $pkg > /tmp/confirm.mut.log 2>&1 ); mut=$?
